@@ -52,6 +52,7 @@ class CFG:
         self._ipdom()
         self._loops()
         self._tails()
+        self._rpo()
 
     def _ipdom(self):
         # iterative post-dominator sets on the restricted graph (small graphs: fine)
@@ -149,6 +150,31 @@ class CFG:
                     tail.add(i)
                     changed = True
         self.tail = tail
+
+    def _rpo(self):
+        back = set(self.back_edges)
+        seen = set()
+        order = []
+
+        def dfs(x):
+            stack = [(x, iter(self.succ[x]))]
+            seen.add(x)
+            while stack:
+                node, it = stack[-1]
+                adv = False
+                for s in it:
+                    if (node, s) in back or s in seen:
+                        continue
+                    seen.add(s)
+                    stack.append((s, iter(self.succ[s])))
+                    adv = True
+                    break
+                if not adv:
+                    order.append(node)
+                    stack.pop()
+        dfs(0)
+        order.reverse()
+        self.rpo_index = {b: i for i, b in enumerate(order)}
 
     def loop_depth(self, bb):
         return sum(1 for h, blocks in self.loops.items() if bb in blocks)
